@@ -17,6 +17,7 @@ from ..core import RuleResult
 from ..core import norm
 from ..flow import BaseState
 from ..flow import Domain
+from ..flow import ANY as ANY_K
 from ..flow import Interp
 from ..model import ancestors
 from ..model import own_nodes
@@ -855,6 +856,133 @@ def rule_direction(model):
     return r
 
 
+class _NKS(BaseState):
+    def __init__(self, may=frozenset()):
+        self.may = may            # locals that may hold None
+
+    def key(self):
+        return self.may
+
+    def copy(self):
+        n = _NKS(self.may)
+        n.trace = self.trace
+        return n
+
+
+class _NoneKeyDomain(Domain):
+    """Which extracted sort keys may still be None where they are handed
+    on (appended to the decorated list / returned by the extractor)?"""
+
+    def __init__(self, is_helper):
+        self.is_helper = is_helper
+        self.sinks = {}
+
+    def source(self, e, st):
+        # lookup that answers None for a missing field, or the result of
+        # calling the looked-up value
+        if isinstance(e, ast.Call):
+            f = e.func
+            if isinstance(f, ast.Attribute) and f.attr == 'get' and \
+                    len(e.args) == 1:
+                return True
+            if isinstance(f, ast.Name) and f.id == 'getattr' and \
+                    len(e.args) == 3 and isinstance(
+                        e.args[2], ast.Constant) and e.args[2].value is None:
+                return True
+            if isinstance(f, ast.Name) and not e.args and not e.keywords \
+                    and f.id not in ('list', 'dict', 'tuple', 'set'):
+                return True        # akey()
+        if isinstance(e, ast.Name):
+            return e.id in st.may
+        if isinstance(e, ast.IfExp):
+            return self.source(e.body, st) or self.source(e.orelse, st)
+        return False
+
+    def raises(self, node, st):
+        return [ANY_K] if any(isinstance(x, ast.Call)
+                              for x in ast.walk(node)) else []
+
+    def branch(self, test, st):
+        if isinstance(test, ast.Compare) and len(test.ops) == 1 and \
+                isinstance(test.left, ast.Name) and isinstance(
+                    test.comparators[0], ast.Constant) and \
+                test.comparators[0].value is None and isinstance(
+                    test.ops[0], (ast.Is, ast.IsNot, ast.Eq, ast.NotEq)):
+            v = test.left.id
+            pos = isinstance(test.ops[0], (ast.Is, ast.Eq))
+            isnone, notnone = st.copy(), st.copy()
+            notnone.may = st.may - {v}
+            return [(pos, isnone), (not pos, notnone)]
+        return [(True, st), (False, st)]
+
+    def _sink(self, node, e, st):
+        k = e.elts[0] if isinstance(e, ast.Tuple) and e.elts else e
+        bad = self.source(k, st)
+        rec = self.sinks.setdefault(id(node), [node, False])
+        rec[1] = rec[1] or bad
+
+    def effects(self, stmt, st):
+        for c in ast.walk(stmt):
+            if isinstance(c, ast.Call) and isinstance(
+                    c.func, ast.Attribute) and c.func.attr == 'append' and \
+                    len(c.args) == 1 and isinstance(
+                        c.args[0], (ast.Name, ast.Tuple, ast.Call)):
+                self._sink(c, c.args[0], st)
+        if isinstance(stmt, ast.Assign) and len(stmt.targets) == 1 and \
+                isinstance(stmt.targets[0], ast.Name):
+            t = stmt.targets[0].id
+            n = st.copy()
+            n.may = (st.may | {t}) if self.source(stmt.value, st) \
+                else (st.may - {t})
+            return n
+        return st
+
+    def enter_handler(self, h, st, exc):
+        return st
+
+    def on_return(self, node, st):
+        if self.is_helper and node.value is not None:
+            self._sink(node, node.value, st)
+        return [], st
+
+
+def rule_none_keys(model):
+    r = RuleResult('C13.R9', 'no extracted sort key is handed on while it '
+                   'may still be None: a missing field AND the None a '
+                   'callable field returns are both replaced by the '
+                   'smallest-key marker before the key reaches the '
+                   'decorated list (None does not compare with real keys)')
+    ss = model.func('DT_In', 'InClass.sort_sequence')
+    n = 0
+    for f in model.closure(ss):
+        has_src = any(
+            isinstance(x, ast.Call) and _NoneKeyDomain(False).source(
+                x, _NKS()) and not (isinstance(x.func, ast.Name) and
+                                   not x.args)
+            for x in own_nodes(f.node))
+        if not has_src:
+            continue
+        dom = _NoneKeyDomain(f is not ss)
+        it = Interp(dom, max_states=80000)
+        it.run(f.node, _NKS())
+        if it.overflow:
+            raise AnalysisError(f'C13.R9: state budget in {f.where}')
+        for node, bad in dom.sinks.values():
+            n += 1
+            r.instance(f.where, node, 'MAY BE None' if bad else 'never None')
+            if bad:
+                r.finding(f.where, node, 'a sort key that may be None is '
+                          'handed on (the field is missing, or a callable '
+                          'field returned None after the None test): '
+                          'sorting then compares None with real keys and '
+                          'raises TypeError instead of putting the element '
+                          'first', node=node, ctx=f)
+    if n < 2:
+        raise AnalysisError(f'C13.R9: only {n} key hand-over sites found')
+    r.floor = 2
+    return r
+
+
 def _three_way(fi):
     """Does the two-parameter function return a negative / zero /
     positive number for first < / == / > second?  Decided by evaluating
@@ -1267,7 +1395,7 @@ def rule_effective_spec(model):
 
 RULES_PLAIN = [rule_mutation, rule_stability, rule_predicate, rule_twins,
                rule_direction, rule_pair_key, rule_effective_spec,
-               rule_comparator_ties]
+               rule_comparator_ties, rule_none_keys]
 RULES = [_inl(r_) if r_ is rule_effective_spec else r_
          for r_ in RULES_PLAIN]
 EXPLANATION = (
